@@ -297,10 +297,20 @@ def run_impl(fn, cases, timeout=1800, par=NPROC, hashseed='0', cwd=None):
 # known findings
 
 def load_findings(prop):
+    """KNOWN_FINDINGS.json is the committed known-findings file; it is assembled
+    by tools/mkfindings.py from the per-property fragments findings/*.json and
+    never written at check time."""
     p = os.path.join(VERIF, 'KNOWN_FINDINGS.json')
-    if not os.path.exists(p):
-        return []
-    return [f for f in json.load(open(p)) if f['property'] == prop]
+    out = []
+    if os.path.exists(p):
+        out += [f for f in json.load(open(p)) if f['property'] == prop]
+    seen = {f['id'] for f in out}
+    for frag in sorted(glob.glob(os.path.join(VERIF, 'findings', '*.json'))):
+        for f in json.load(open(frag)):
+            if f['property'] == prop and f['id'] not in seen:
+                out.append(f)
+                seen.add(f['id'])
+    return out
 
 
 # --------------------------------------------------------------------------
